@@ -326,23 +326,49 @@ Check C09_gap_refuted :
 Print Assumptions C09_gap_refuted.
 
 Theorem C09_dup_refuted :
-  spec_wf recog_req recog_resp dup_trace = true /\
-  known_classes recog_req recog_resp dup_trace = (false, false, true, false) /\
-  outs recog_req recog_resp 10 (map wire dup_trace) <> spec_outs recog_req recog_resp dup_trace.
+  spec_wf recog_req recog_resp overlap_trace = true /\
+  known_classes recog_req recog_resp overlap_trace = (false, false, true, false) /\
+  outs recog_req recog_resp 10 (map wire overlap_trace) <> spec_outs recog_req recog_resp overlap_trace.
 Proof. exact dup_refuted. Qed.
 Check C09_dup_refuted :
-  spec_wf recog_req recog_resp dup_trace = true /\
-  known_classes recog_req recog_resp dup_trace = (false, false, true, false) /\
-  outs recog_req recog_resp 10 (map wire dup_trace) <> spec_outs recog_req recog_resp dup_trace.
+  spec_wf recog_req recog_resp overlap_trace = true /\
+  known_classes recog_req recog_resp overlap_trace = (false, false, true, false) /\
+  outs recog_req recog_resp 10 (map wire overlap_trace) <> spec_outs recog_req recog_resp overlap_trace.
 Print Assumptions C09_dup_refuted.
 
+(* the exact retransmission was the witness of the dup class before fix C09-dup; it is now outside
+   every class and model = SPEC on it *)
+Theorem C09_dup_former_witness_agrees :
+  spec_wf recog_req recog_resp dup_trace = true /\
+  known_classes recog_req recog_resp dup_trace = (false, false, false, false) /\
+  outs recog_req recog_resp 10 (map wire dup_trace) = spec_outs recog_req recog_resp dup_trace.
+Proof. exact dup_former_witness_agrees. Qed.
+Check C09_dup_former_witness_agrees :
+  spec_wf recog_req recog_resp dup_trace = true /\
+  known_classes recog_req recog_resp dup_trace = (false, false, false, false) /\
+  outs recog_req recog_resp 10 (map wire dup_trace) = spec_outs recog_req recog_resp dup_trace.
+Print Assumptions C09_dup_former_witness_agrees.
+
 Theorem C09_fin_refuted :
-  spec_wf recog_req recog_resp fin_trace = true /\
-  known_classes recog_req recog_resp fin_trace = (false, false, false, true) /\
-  outs recog_req recog_resp 10 (map wire fin_trace) <> spec_outs recog_req recog_resp fin_trace.
+  spec_wf recog_req recog_resp fin_early_trace = true /\
+  known_classes recog_req recog_resp fin_early_trace = (false, false, false, true) /\
+  outs recog_req recog_resp 10 (map wire fin_early_trace) <> spec_outs recog_req recog_resp fin_early_trace.
 Proof. exact fin_refuted. Qed.
 Check C09_fin_refuted :
-  spec_wf recog_req recog_resp fin_trace = true /\
-  known_classes recog_req recog_resp fin_trace = (false, false, false, true) /\
-  outs recog_req recog_resp 10 (map wire fin_trace) <> spec_outs recog_req recog_resp fin_trace.
+  spec_wf recog_req recog_resp fin_early_trace = true /\
+  known_classes recog_req recog_resp fin_early_trace = (false, false, false, true) /\
+  outs recog_req recog_resp 10 (map wire fin_early_trace) <> spec_outs recog_req recog_resp fin_early_trace.
 Print Assumptions C09_fin_refuted.
+
+(* the client half-close (FIN on the segment that completes the request) was the witness of the fin
+   class before fix C09-fin; it is now outside every class and model = SPEC on it *)
+Theorem C09_fin_former_witness_agrees :
+  spec_wf recog_req recog_resp fin_trace = true /\
+  known_classes recog_req recog_resp fin_trace = (false, false, false, false) /\
+  outs recog_req recog_resp 10 (map wire fin_trace) = spec_outs recog_req recog_resp fin_trace.
+Proof. exact fin_former_witness_agrees. Qed.
+Check C09_fin_former_witness_agrees :
+  spec_wf recog_req recog_resp fin_trace = true /\
+  known_classes recog_req recog_resp fin_trace = (false, false, false, false) /\
+  outs recog_req recog_resp 10 (map wire fin_trace) = spec_outs recog_req recog_resp fin_trace.
+Print Assumptions C09_fin_former_witness_agrees.
